@@ -22,6 +22,7 @@ import (
 	"github.com/olric-data/olric/internal/discovery"
 	"github.com/olric-data/olric/internal/protocol"
 	"github.com/olric-data/olric/internal/stats"
+	"github.com/olric-data/olric/internal/verifhook"
 	"golang.org/x/sync/errgroup"
 )
 
@@ -99,12 +100,18 @@ func (dm *DMap) deleteOnCluster(hkey uint64, key string, f *fragment) error {
 	if err != nil {
 		return err
 	}
+	if verifhook.Enabled {
+		verifhook.Point("del.afterPrev", dm.s.rt.This().String(), key)
+	}
 
 	if dm.s.config.ReplicaCount != 0 {
 		err := dm.deleteBackupOnCluster(hkey, key)
 		if err != nil {
 			return err
 		}
+	}
+	if verifhook.Enabled {
+		verifhook.Point("del.afterBackups", dm.s.rt.This().String(), key)
 	}
 
 	err = f.storage.Delete(hkey)
